@@ -422,9 +422,9 @@ Definition tl_read (t : tlist) (text : str) : res tlist := tl_read_lines t (line
 
 (* ------------------------------------------------------------------ Mapping *)
 
-Definition vmap := amap (str * str).     (* inVersion -> (outProduct, outVersion) *)
-Definition pmap := amap vmap.            (* inProduct -> ... *)
-Definition fmap := amap pmap.            (* flavor -> ... *)
+Notation vmap := (amap (str * str)).     (* inVersion -> (outProduct, outVersion) *)
+Notation pmap := (amap vmap).            (* inProduct -> ... *)
+Notation fmap := (amap pmap).            (* flavor -> ... *)
 
 Record mapping := mkMapping { mp_map : fmap; mp_nore : fmap }.
 
